@@ -34,18 +34,23 @@ class Spec:
     note: str = ""
     optional_covers: list = field(default_factory=list)
     heavy: bool = False
+    pre_draw: str = ""             # Rust statements drawing user-function behaviour (after the input draw)
+    post_input: str = ""           # Rust statements after `s`/`b` exist (assumptions tying tables to the input)
+    ctx: bool = False              # parse with a user context (crate::user::Ctx)
 
 
 def input_prelude(spec: Spec, fixed_len):
     n = spec.n
     fl = f"Some({fixed_len})" if fixed_len is not None else "None"
     s = f"    let (bytes, len) = crate::vrt::draw_input::<{n}, S>(src, {fl});\n"
+    s += spec.pre_draw
     if spec.ascii_only:
         s += "    { let mut k = 0; while k < len { src.assume(bytes[k] < 0x80); k += 1; } }\n"
     if spec.alphabet:
         alts = " || ".join(f"bytes[k] == 0x{ord(c):02x}" for c in spec.alphabet)
         s += f"    {{ let mut k = 0; while k < len {{ src.assume({alts}); k += 1; }} }}\n"
     s += "    let s = crate::vrt::as_input(src, &bytes, len);\n    let b = &bytes[..len];\n"
+    s += spec.post_input
     return s
 
 
@@ -56,7 +61,9 @@ def harness_body(spec: Spec, fname, fixed_len):
              input_prelude(spec, fixed_len),
              "    let mut cx = crate::rf_g::Cx::new();",
              f"    let exp = crate::rf_g::ref_{root}(&mut cx, s, 0);",
-             f"    let real = <{g}::{G.ident(root)} as peginator::PegParser>::parse(s);",
+             (f"    let mut uctx = crate::user::Ctx::default();\n    let real = <{g}::{G.ident(root)} as peginator::PegParserAdvanced<&mut crate::user::Ctx>>::parse_advanced::<peginator::NoopTracer>(s, &peginator::ParseSettings::default(), &mut uctx);"
+              if spec.ctx else
+              f"    let real = <{g}::{G.ident(root)} as peginator::PegParser>::parse(s);"),
              '    vcover!(src, exp.is_some(), "reference: input accepted");',
              '    vcover!(src, exp.is_none(), "reference: input rejected");']
     for cond, msg in spec.covers:
@@ -135,6 +142,8 @@ def jobs_for(spec: Spec, timeout=900, mem_gb=14, weight=1, required=True, role=N
         jobs.append(kani.Job(jid=h, crate=d, harness=h, desc=(spec.note + " | " if spec.note else "") + f"rule {spec.root} of: " + info["grammar"].replace("\n", " "),
                              bound=bound, timeout=timeout, mem_gb=mem_gb, weight=weight, required=required,
                              meta={"role": role or spec.name, "nbytes": spec.n, "spec": spec.name,
+                                   "unwindset": [(f"{len('parse_' + r)}parse_{r}", k) for r, k in spec.leftrec_unwind.items()]
+                                   + [(f"{len('ref_' + r)}ref_{r}", k) for r, k in spec.leftrec_unwind.items()],
                                    "generated_sha": info.get("generated_sha"),
                                    # a family grammar may accept (or reject) every input inside the bound; these two
                                    # witnesses are informational, "reaches the end" is the mandatory vacuity witness
